@@ -54,16 +54,26 @@ fn span_json(tcx: TyCtxt<'_>, span: Span) -> J {
 
 // ---------------------------------------------------------------- structured types
 
+fn named_region(tcx: TyCtxt<'_>, def_id: DefId) -> String {
+    // elided lifetimes are all called `'_`: make them distinguishable
+    let n = tcx.item_name(def_id).to_string();
+    if n == "'_" {
+        format!("'_#{}", def_id.index.as_u32())
+    } else {
+        n
+    }
+}
+
 fn region_json<'tcx>(tcx: TyCtxt<'tcx>, r: ty::Region<'tcx>) -> J {
     match r.kind() {
         ty::ReEarlyParam(p) => J::s(p.name.to_string()),
         ty::ReStatic => J::s("'static"),
         ty::ReBound(_, br) => match br.kind {
-            ty::BoundRegionKind::Named(def_id) => J::s(tcx.item_name(def_id).to_string()),
+            ty::BoundRegionKind::Named(def_id) => J::s(named_region(tcx, def_id)),
             _ => J::s(format!("'_anon{}", br.var.as_u32())),
         },
         ty::ReLateParam(fr) => match fr.kind {
-            ty::LateParamRegionKind::Named(def_id) => J::s(tcx.item_name(def_id).to_string()),
+            ty::LateParamRegionKind::Named(def_id) => J::s(named_region(tcx, def_id)),
             other => J::s(format!("'_late{:?}", other)),
         },
         ty::ReErased => J::s("'_erased"),
